@@ -367,7 +367,9 @@ def _forms_recv(ex, rx, tx, c):
         nio = ex.io_n()
         if M >= L:
             if err or r != msg:
-                return None, '%s: got %r / %s' % (tag, r and _summ(r), err)
+                return None, ('%s: a message within the limit was not '
+                              'delivered: got %r / raised %s' % (
+                                  tag, r and _summ(r), err))
             return ('recv', 'max', 'fits', M - L), _after(rx, [nxt])
         # the limit is smaller than the message
         if err is None:
@@ -800,14 +802,14 @@ class _RealReader:
                 with cv:
                     ok = cv.wait_for(
                         lambda: state['consumed'] >= pos or not t.is_alive(),
-                        timeout=20)
+                        timeout=300)
                 if not ok:
                     raise HarnessError('real reader did not consume %d bytes'
                                        % pos)
                 if state['consumed'] < pos:
                     break                      # reader gave up early
             tx.close()
-            t.join(20)
+            t.join(300)
             if t.is_alive():
                 raise HarnessError('real reader did not finish')
         finally:
@@ -844,7 +846,7 @@ def _real_wire(kind, lens, sform):
         if not d:
             break
         chunks.append(d)
-    t.join(20)
+    t.join(300)
     rx.close()
     if err:
         raise HarnessError('real sender failed: %r' % err)
@@ -932,7 +934,7 @@ def _job_stream(job):
 
 ALPHA = [0, 1, 2, 3, 4, 5, 255, 256, 16383, 16384, 16385, 65535, 65536,
          65537]
-ALPHA3 = [0, 1, 5, 255, 16384, 16385, 65537]
+ALPHA3 = [0, 1, 5, 16384, 16385, 65537]
 
 
 def split_jobs(tier):
@@ -954,12 +956,16 @@ def split_jobs(tier):
                                  wire=True))
         for i in range(0, len(cfgs), 12):
             jobs.append(('split', cfgs[i:i + 12], b1, ms))
+        # (the Connection code is the same for both kinds: the socketpair
+        # gets the reduced alphabets in the quick tier)
+        al = ALPHA if thorough or kind == 'pipe' else ALPHA3
         cfgs = [dict(kind=kind, lens=[a, b], wire=True)
-                for a in ALPHA for b in ALPHA]
+                for a in al for b in al]
         for i in range(0, len(cfgs), 7 if thorough else 14):
             jobs.append(('split', cfgs[i:i + (7 if thorough else 14)],
                          b1, ms))
-        al = ALPHA if thorough else ALPHA3
+        al = ALPHA if thorough else (
+            ALPHA3 if kind == 'pipe' else [0, 5, 16385, 65537])
         cfgs = [dict(kind=kind, lens=[a, b, c]) for a in al for b in al
                 for c in al]
         step = 4 if thorough else 7
@@ -1123,15 +1129,26 @@ def conc_jobs(tier):
         # tiny capacities: every message is larger than the buffer
         for cap in (1, 3, 5, 8):
             for lens in ([0], [1], [5], [0, 3], [6, 1], [2, 0, 9]):
-                add(dict(kind=kind, lens=lens, cap=cap), b)
+                add(dict(kind=kind, lens=lens, cap=cap),
+                    b + 1 if len(lens) < 3 else b)
             add(dict(kind=kind, lens=[7], cap=cap, rform='into'), b)
             add(dict(kind=kind, lens=[4, 2], cap=cap, poll=1.0,
                      timers=True), b)
             add(dict(kind=kind, lens=[3, 0], cap=cap, envio=True),
                 b if cap <= 3 or thorough else b - 1)
         for lens in ([40], [17, 23]):
-            add(dict(kind=kind, lens=lens, cap=16), b)
-            add(dict(kind=kind, lens=lens, cap=16, envio=True), b - 1)
+            add(dict(kind=kind, lens=lens, cap=16), b + 1)
+            add(dict(kind=kind, lens=lens, cap=16, envio=True), b)
+        for cap in (2, 4, 7):
+            add(dict(kind=kind, lens=[1, 0, 2], cap=cap, envio=True), b)
+            add(dict(kind=kind, lens=[9], cap=cap, rform='max', envio=True),
+                b)
+        for lens in ([255], [16384], [16385], [16385, 16384]):
+            for cap in (64, 4096, 16384):
+                add(dict(kind=kind, lens=lens, cap=cap), b)
+        add(dict(kind=kind, lens=[16385], cap=4096, envio=True), b - 1)
+        add(dict(kind=kind, lens=[16385, 3], cap=16388, poll=0.5,
+                 timers=True), b)
         # the real default capacity with messages around and above it
         for lens in ([65537], [65536, 1], [16385, 65535], [70000, 70000]):
             add(dict(kind=kind, lens=lens, cap=65536), b)
@@ -1199,10 +1216,12 @@ def all_jobs(tier, only=None, known=()):
 
 BOUNDS = {
     'quick': 'split: deviations<=2 (2 MiB+1: <=1); peerclose: deviations<=2; '
-             'conc: preemptions+deviations<=2 (<=1 with environment choices '
-             'on large capacities and for 2 MiB+1)',
+             'conc: preemptions+deviations<=2 (<=3 for 1-2 messages over '
+             'capacities 1..8, <=1 with environment choices on large '
+             'capacities and for 2 MiB+1)',
     'thorough': 'split: deviations<=4 for 1-2 messages, <=3 for triples over '
-                'the full alphabet; peerclose: <=3; conc: <=3',
+                'the full alphabet; peerclose: <=3; conc: <=3 (<=4 for 1-2 '
+                'messages over capacities 1..8)',
 }
 
 
